@@ -1,5 +1,7 @@
 import Sheens.Driver.Engine
 import Sheens.SioCrew
+import Sheens.GoRun
+import Sheens.Gen.GoAst
 
 /-! Driver op `crew`: replay a history of messages against the model of the sio crew, compare the
 per-message observations (reported changes, emitted multiset, live view), evaluate the C14/C15
@@ -107,6 +109,21 @@ def handleCrew (j : Json) : Json :=
                                  ("store", viewJson (storeView store'))]
           (some (c', store'), acc.2 ++ [obs]))
     (some (c1, []), [])
+  -- Tie C: the routing functions regenerated from sio/crew.go against the model's `toMachines`, on
+  -- every message of the history with the crew as the model has it at that point (same order of
+  -- machines on both sides, so the lists are compared as they are)
+  let routeDiffs : List Json := (history.foldl
+    (fun (acc : Option Crew × List Json) msg =>
+      match acc.1 with
+      | none => acc
+      | some c =>
+        let ids := c.machines.map (·.1)
+        let mine := toMachines c msg
+        let d : List Json := match Go.runToMachines 100000 Gen.GoAst.sioCrewProg ids msg with
+          | .ok tr => if tr == mine then [] else [Json.mkObj [("msg", ofV msg), ("translated", jstrs tr), ("model", jstrs mine)]]
+          | .error e => [Json.mkObj [("msg", ofV msg), ("translated", Json.str ("error:" ++ e)), ("model", jstrs mine)]]
+        ((processMsg resolve asCrewOp sameChanged 4000 c msg).map (·.1), acc.2 ++ d))
+    (some c1, [])).2
   let mine := Json.arr run.2.toArray
   let go := (getObj? j "go").getD .null
   let goSteps := getArr go "steps"
@@ -162,7 +179,8 @@ def handleCrew (j : Json) : Json :=
     (if history.any (fun m => match m with | .obj kvs => (lookup "to" kvs).isNone | _ => true) then ["broadcast"] else []) ++
     (if run.2.any (fun o => match getObj? o "emitted" with | some (.arr a) => a.size > 0 | _ => false) then ["emits"] else []) ++
     (if run.2.any (fun o => match getObj? o "changed" with | some (.obj m) => m.toList.any (fun (_, c) => getBool c "deleted") | _ => false) then ["deleted"] else [])
-  Json.mkObj [("corr", corr), ("prop", boolsJson [("storeEqLive", storeEq), ("deliveredOnce", delivered), ("crewEmitExact", crewEmitExact)]), ("model", mine),
+  Json.mkObj [("corr", corr), ("tr", routeDiffs.isEmpty), ("trDiff", (routeDiffs.head?).getD Json.null),
+              ("prop", boolsJson [("storeEqLive", storeEq), ("deliveredOnce", delivered), ("crewEmitExact", crewEmitExact)]), ("model", mine),
               ("feat", jstrs feats), ("nontrivial", decide (history.length > 1)),
               ("key", (Json.mkObj [("specs", specsJ), ("init", initJ), ("history", (getObj? j "history").getD .null)]).compress)]
 
